@@ -17,7 +17,7 @@ import (
 
 func init() {
 	Registry["C20"] = Set{
-		Explanation: "Decides structural clauses of the cron scheduler: K1 field plumbing — crontab field i (minute, hour, day, month, weekday) is parsed with the descriptor of unit i and stored in the list IsRunAt consults for that unit (minute/hour/month: the AND list; day and weekday: their own OR lists), each descriptor carries the mask type and the value range of its unit, each mask type is tested against the matching time.Time accessor, and every settable bit index is below the type nibble (bit 60); the day/weekday combination rule is AND with each wildcard and OR when both are restricted; K2 AddJob returns the parser's error before the job is inserted and refuses a taken name; K3 the action is dominated by the 'disabled' test of the very job popped, and RemoveJob/DisableJob set that flag; K4 every path through the minute callback that is not the node-down exit re-arms the timer and reschedules (the recognised clock-skew early return is listed, not armed: it cannot be exhibited without controlling the clock); K5 a job enters the spool for a minute at most once: the push is behind a per-job compare-and-swap that the callback clears when it takes the job out. Added while probing: K1 the day/weekday combination is verified as a truth table by exhaustive abstract execution of cronSpecMask.IsRunAt over {list empty, list matches}; an empty list matches; K3 EnableJob clears the disabled flag; K6 the mask evaluation uses calendar operations only (no Time.Add/Sub/Truncate). K7 the constructor initialises the 'next minute' field with the minute the timer is armed for. K8 no critical section of the cron's lock calls anything that takes that lock again. K9 lock pairing — in every function that touches the cron lock a forward data flow over (held read/write, unlock deferred) shows: no return while the lock is held without a deferred unlock, no unlock (explicit or deferred) of a lock that is not held or of the other kind, no second lock (a leaked lock blocks every later job operation and the minute tick for ever, an unlock of an unlocked mutex is a fatal error that takes the node down). K5 also: every job popped from the spool has its flag cleared on every path of that iteration (a job popped while disabled included). K10 the schedule scans advance by exactly one minute per iteration from the loop variable itself; no skip-ahead.",
+		Explanation: "Decides structural clauses of the cron scheduler: K1 field plumbing — crontab field i (minute, hour, day, month, weekday) is parsed with the descriptor of unit i and stored in the list IsRunAt consults for that unit (minute/hour/month: the AND list; day and weekday: their own OR lists), each descriptor carries the mask type and the value range of its unit, each mask type is tested against the matching time.Time accessor, and every settable bit index is below the type nibble (bit 60); the day/weekday combination rule is AND with each wildcard and OR when both are restricted; K2 AddJob returns the parser's error before the job is inserted and refuses a taken name; K3 the action is dominated by the 'disabled' test of the very job popped, and RemoveJob/DisableJob set that flag; K4 every path through the minute callback that is not the node-down exit re-arms the timer and reschedules (the recognised clock-skew early return is listed, not armed: it cannot be exhibited without controlling the clock); K5 a job enters the spool for a minute at most once: the push is behind a per-job compare-and-swap that the callback clears when it takes the job out. Added while probing: K1 the day/weekday combination is verified as a truth table by exhaustive abstract execution of cronSpecMask.IsRunAt over {list empty, list matches}; an empty list matches; K3 EnableJob clears the disabled flag; K6 the mask evaluation uses calendar operations only (no Time.Add/Sub/Truncate). K7 the constructor initialises the 'next minute' field with the minute the timer is armed for. K8 no critical section of the cron's lock calls anything that takes that lock again. K9 lock pairing — in every function that touches the cron lock a forward data flow over (held read/write, unlock deferred) shows: no return while the lock is held without a deferred unlock, no unlock (explicit or deferred) of a lock that is not held or of the other kind, no second lock (a leaked lock blocks every later job operation and the minute tick for ever, an unlock of an unlocked mutex is a fatal error that takes the node down). K5 also: every job popped from the spool has its flag cleared on every path of that iteration (a job popped while disabled included). K10 the schedule scans advance by exactly one minute per iteration from the loop variable itself; no skip-ahead. K11 the minute callback pops the spool and stores the next minute inside ONE write-locked section of the cron lock (AddJob/EnableJob/UpdateJob decide under that lock whether the job belongs to the minute being fired: with the spool emptied outside the lock a job enabled in between was queued for the minute already taken out and fired for a minute its specification does not denote); K4 accepts the reschedule walk inlined in that section.",
 		NotDecided: []string{
 			"that the compiled masks denote exactly the crontab semantics for every spec and minute (lists, ranges, steps, L, xL, x#n)",
 			"time zones and daylight-saving transitions beyond the rule that the mask evaluation uses calendar operations only; the clock-skew early return of the minute callback (listed, not armed)",
@@ -595,12 +595,79 @@ func runC20(p *load.Program, r *core.Report) {
 			r.Bad(rule3, key, fname(f), p.Pos(f.Pos()), inst, fmt.Sprintf("a successful return does not set the disabled flag to %v", wantVal))
 		}
 	}
+	// K11: the tick empties the spool for minute M and moves 'next' to M+1; AddJob / EnableJob decide
+	// against 'next' whether to put a job into the spool. The two must exclude each other: the whole
+	// sequence "pop everything, store the new next minute" runs under the cron's write lock.
+	{
+		rule11 := "C20.K11 spool-emptied-and-refilled-in-one-critical-section"
+		r.Floor(rule11, 1)
+		key := "C20.K11|" + fn
+		inst := "the minute callback pops the spool and advances the next minute inside one write-locked section"
+		var pop, nextStore ssa.Instruction
+		eachInstr(cb, func(in ssa.Instruction) {
+			cc := callCommon(in)
+			if cc != nil && cc.IsInvoke() && cc.Method.Name() == "Pop" {
+				if _, path, okp := fieldPath(cc.Value); okp && len(path) > 0 && path[len(path)-1] == "spool" {
+					pop = in
+				}
+			}
+			if st, ok := in.(*ssa.Store); ok {
+				if _, fl := fieldOwner(st.Addr); fl == "next" {
+					nextStore = in
+				}
+			}
+		})
+		isLk := func(in ssa.Instruction, kind string) bool {
+			m := mutexOpOf(in)
+			return m != nil && !m.deferred && m.kind == kind && strings.HasSuffix(m.owner, "cron")
+		}
+		switch {
+		case pop == nil:
+			r.Unk(rule11, key, fn, p.Pos(cb.Pos()), inst, "no Pop on the spool found in the callback")
+		case nextStore == nil:
+			r.Bad(rule11, key, fn, p.Pos(pop.Pos()), inst, "the callback does not store the next minute itself (it calls a helper that takes the lock on its own): between the pop of a job and that call, EnableJob/AddJob still see the minute being fired as 'next' and queue the job again — it fires twice, or with the following minute as action time")
+		default:
+			var probs []string
+			if reaches([]Point{{cb.Blocks[0], 0}}, func(in ssa.Instruction) bool { return isLk(in, "Lock") }, func(in ssa.Instruction) bool { return in == pop }) != nil {
+				probs = append(probs, "the spool is popped without the write lock")
+			}
+			if hit := reaches([]Point{after(pop)}, func(in ssa.Instruction) bool { return in == nextStore }, func(in ssa.Instruction) bool { return isLk(in, "Unlock") }); hit != nil {
+				// an unlock on a path that then returns is fine (clock-skew exit); one that goes on to the store is not
+				if instrReachable(hit, nextStore) {
+					probs = append(probs, "the lock is released at "+p.Pos(hit.Pos())+" between the pop and the store of the next minute")
+				}
+			}
+			if len(probs) > 0 {
+				r.Bad(rule11, key, fn, p.Pos(pop.Pos()), inst, strings.Join(probs, "; ")+": EnableJob/AddJob running in between queue a job for the minute that is being fired")
+			} else {
+				r.OK(rule11, key, fn, p.Pos(pop.Pos()), inst, "Lock before the first Pop, no Unlock before the store of the next minute")
+			}
+		}
+	}
 	// K4
 	{
 		key := "C20.K4|" + fn
 		inst := "every exit of the minute callback other than 'node is down' (and the listed clock-skew exit) re-arms the timer and reschedules the jobs"
 		isReset := func(in ssa.Instruction) bool { return callsNamed(in, "Reset") }
-		isSched := func(in ssa.Instruction) bool { return callsNamed(in, "schedule") }
+		// rescheduling: the helper that walks the jobs, or that walk inlined (scheduleJob inside a loop)
+		walkHasScheduleJob := false
+		eachInstr(cb, func(in ssa.Instruction) {
+			if callsNamed(in, "scheduleJob") && loopHeaderOf(in) != nil {
+				walkHasScheduleJob = true
+			}
+		})
+		isSched := func(in ssa.Instruction) bool {
+			if callsNamed(in, "schedule") {
+				return true
+			}
+			// the walk inlined: the range over the job table (it may be empty) whose body calls scheduleJob
+			if rg, ok := in.(*ssa.Range); ok && walkHasScheduleJob {
+				if _, path, okp := fieldPath(rg.X); okp && len(path) > 0 && path[len(path)-1] == "jobs" {
+					return true
+				}
+			}
+			return false
+		}
 		var bad []string
 		listed := 0
 		eachInstr(cb, func(in ssa.Instruction) {
